@@ -16,7 +16,7 @@ M = [
     ("C03", "no-restore-on-valueerror", "dateparser/date.py", "        except ValueError:\n            self._settings.DATE_ORDER = _order\n            return None", "        except ValueError:\n            return None", []),
     # ("skip-tokens-not-in-settings-key" was tried and dropped: the registry object is re-initialised on every entry and
     #  Dictionary.__contains__ reads SKIP_TOKENS live, so no API-visible difference could be constructed -- apparently equivalent)
-    ("C03", "cache-key-without-locale-name", "dateparser/languages/dictionary.py", '        cache.setdefault(self._settings.registry_key, {})[self.info["name"]] = value', '        cache.setdefault(self._settings.registry_key, {})[self.info["name"][:2]] = value', []),
+    ("C03", "dictionary-keeps-first-callers-settings", "dateparser/languages/locale.py", "            if self._dictionary is None:\n                self._generate_dictionary()\n            self._dictionary._settings = settings", "            if self._dictionary is None:\n                self._generate_dictionary()\n                self._dictionary._settings = settings", []),
     ("C03", "loader-without-deepcopy", "dateparser/languages/loader.py", "locale = Locale(shortname, language_info=deepcopy(language_info))", "locale = Locale(shortname, language_info=language_info)", []),
     ("C03", "evict-first-key-again", "dateparser/languages/dictionary.py", "                if key != self._settings.registry_key:\n", "                if True:\n", []),
     ("C03", "search-keeps-relative-base", "dateparser/search/search.py", "            parser._settings.RELATIVE_BASE = relative_base\n        parser._settings = Settings()", "            pass\n        parser._settings = Settings()", []),
@@ -39,6 +39,13 @@ M = [
     ("C14", "year-applied-after-completion", "dateparser/utils/__init__.py", '"last": get_last_day_of_month(date_obj.year, date_obj.month),', '"last": get_last_day_of_month(1900, date_obj.month),', []),
     ("C14", "utc-day-for-current", "dateparser/utils/__init__.py", '"current": current_day or datetime.now().day,', '"current": current_day or datetime.now().day % 28 + 1,', []),
 ]
+
+
+# changes under which the property still HOLDS (equivalent or harmless): the check must stay silent
+NEGATIVE_CONTROLS = {
+    "loader-without-deepcopy": "Locale.__init__ builds its own combined dict; nothing shared is ever mutated",
+    "replace-before-write": "with a loader that survives any damaged state, an in-place write after an early rename only produces states the property already covers (prefixes); every import still succeeds and the file ends complete",
+}
 
 
 def run(cmd, **kw):
@@ -65,14 +72,17 @@ def main():
             r = run(["/verif/check", prop, "--tier", "quick"] + extra, env=env, cwd="/verif")
             viol = [l for l in r.stdout.splitlines() if l.startswith("VIOLATION")]
             harness = [l for l in r.stdout.splitlines() if l.startswith("HARNESS")]
-            results.append((prop, name, "DETECTED (%d violation lines, exit %d)" % (len(viol), r.returncode) if viol else "MISSED (exit %d, %d harness lines)" % (r.returncode, len(harness))))
+            if name in NEGATIVE_CONTROLS:
+                results.append((prop, name, "NEGATIVE CONTROL %s (exit %d)" % ("OK: silent" if not viol and r.returncode == 0 else "FALSE ALARM", r.returncode)))
+            else:
+                results.append((prop, name, "DETECTED (%d violation lines, exit %d)" % (len(viol), r.returncode) if viol else "MISSED (exit %d, %d harness lines)" % (r.returncode, len(harness))))
             print(results[-1])
             sys.stdout.flush()
         finally:
             run(["git", "-C", "/repo", "worktree", "remove", "--force", d])
             run(["git", "-C", "/repo", "worktree", "prune"])
     print("\n".join("%-4s %-42s %s" % r for r in results))
-    return 0 if all("DETECTED" in r[2] for r in results) else 1
+    return 0 if all("DETECTED" in r[2] or "OK: silent" in r[2] for r in results) else 1
 
 
 if __name__ == "__main__":
